@@ -123,6 +123,8 @@ def gen_history(rng, pools):
     mols = {}
     for n in set(names):
         mols[n] = rng.sample(pools[n], min(len(pools[n]), rng.randint(3, 6)))
+        if rng.random() < 0.6:
+            mols[n] += rng.sample(pools[n][:7], 3)    # homologs
     for n in names:
         objs.append((len(objs), n))
         ops.append({'op': 'load', 'obj': objs[-1][0], 'db': n})
@@ -360,7 +362,11 @@ def pools(ctx):
         pl = [s for s in pl if molecules.heavy_atoms(s) <= 8 and
               'c' not in s.replace('[Pt]', '')]
         r = random.Random('c15pool:%s:%s' % (ctx.seed, n))
-        out[n] = r.sample(pl, 40)
+        # homologous series: same descriptor keys, different counts (a cache
+        # keyed by the key set would show here)
+        homologs = ['CCC', 'CCCC', 'CCCCC', 'CCCCCC', 'CCCO', 'CCCCO',
+                    'CCCCCO', 'CC(C)C', 'CC(C)CC(C)C']
+        out[n] = homologs + r.sample(pl, 31)
     return out
 
 
